@@ -16,7 +16,7 @@ from props import acmd_lib as L
 from props import c14
 
 PART = dict(name='c10_acu', simulator='acu', ready=True,
-            coq_targets=['Properties/C10_acu.vo', 'Corr/AcmdCorr.vo'])
+            coq_targets=['Properties/C10_acu.vo', 'Corr/AcmdCorr.vo', 'Corr/AcmdTrackCorr.vo'])
 
 
 def gen(ctx):
@@ -111,6 +111,221 @@ class patched_utils:
         self.AU.time = self.saved
 
 
+# ---------------------------------------------------------------------------
+# encoder-built program-track commands decoded by the real PointingStatus (the handler is
+# executed, not intercepted: it needs no clock — mjd_to_date of the start-time field and scipy's
+# splrep are functions of the command — and it does not sleep)
+
+import datetime as _dt
+
+DT_MIN = _dt.datetime.min
+US = _dt.timedelta(microseconds=1)
+I32 = 2 ** 31
+MUST_N = (1, 4, 5, 49, 50)
+DELTAS = [1, 2, 5, 10, 100, 200, 250, 1000, 2000, 60000]
+
+
+def token(dt):
+    return None if dt is None else (dt - DT_MIN) // US
+
+
+def microdeg(x):
+    """int(round(1000000 * x)) when the code's representability test holds (as in props/c17.py)"""
+    try:
+        if not abs(1000000 * x) <= I32 - 1:
+            return None
+        return int(round(1000000 * x))
+    except (ValueError, OverflowError):
+        return None
+
+
+def start_token(ps, bits):
+    from simulators import utils
+    try:
+        return token(utils.mjd_to_date(L.float_of(bits)) + ps.time_source_offset)
+    except (ValueError, OverflowError):
+        return None
+
+
+def track_positions(rng, n):
+    """n in-domain (azimuth, elevation) pairs as bit patterns"""
+    out = []
+    for _ in range(n):
+        r = rng.random()
+        if r < 0.08:
+            a, e = rng.choice([2147.483647, -2147.483647, 0.0, -0.0, 450.0, -90.0]), rng.choice([5.0, 90.0, 0.0, -0.0])
+        elif r < 0.2:
+            a, e = rng.uniform(-2147, 2147), rng.uniform(-2147, 2147)
+        else:
+            a, e = rng.uniform(-90, 450), rng.uniform(5, 90)
+        out.append((L.bits_of(a), L.bits_of(e)))
+    return out
+
+
+def track_scenario(rng, forced=None):
+    """a sequence of in-domain loads: a new table (>= 5 points from relative time 0, equal
+    spacing), then appends to it; each load = dict(mode, times, pos, start, rates).
+    forced = (kind, n) puts a load of that kind and size into the scenario."""
+    start = L.bits_of(60000.0 + rng.randrange(0, 3000) + rng.random())     # an MJD in 2023..2031
+    delta = rng.choice(DELTAS)
+    loads = []
+    kind, fn = forced if forced else (rng.choice(['new', 'append', 'append']), rng.choice(
+        list(MUST_N) + [rng.randrange(1, 51)]))
+    n0 = fn if (kind == 'new' and fn >= 5) else rng.choice([5, 5, 6, 7, 25, 50, rng.randrange(5, 51)])
+    t = 0
+    times = [i * delta for i in range(n0)]
+    loads.append(dict(mode=1, times=times, pos=track_positions(rng, n0), start=start,
+                      rates=(L.bits_of(rng.uniform(0, 0.85)), L.bits_of(rng.uniform(0, 0.5)))))
+    last = times[-1]
+    sizes = []
+    if kind == 'append' or (kind == 'new' and fn < 5):
+        sizes.append(fn)
+    sizes += [rng.choice(list(MUST_N) + [rng.randrange(1, 51)]) for _ in range(rng.choice([0, 0, 1, 2]))]
+    for n in sizes:
+        times = [last + (i + 1) * delta for i in range(n)]
+        if times[-1] >= I32:
+            break
+        last = times[-1]
+        loads.append(dict(mode=2, times=times, pos=track_positions(rng, n), start=start,
+                          rates=(L.bits_of(rng.uniform(0, 0.85)), L.bits_of(rng.uniform(0, 0.5)))))
+    return loads
+
+
+def too_long_scenario(rng):
+    """51 points (one above the documented maximum): a new table, and an append"""
+    loads = track_scenario(rng, ('new', 5))[:1]
+    delta = loads[0]['times'][1]
+    bad_new = dict(mode=1, times=[i * delta for i in range(51)], pos=track_positions(rng, 51),
+                   start=loads[0]['start'], rates=loads[0]['rates'])
+    last = loads[0]['times'][-1]
+    bad_app = dict(mode=2, times=[last + (i + 1) * delta for i in range(51)], pos=track_positions(rng, 51),
+                   start=loads[0]['start'], rates=loads[0]['rates'])
+    return loads + [rng.choice([bad_new, bad_app])]
+
+
+def load_args(ld):
+    """the `track` argument tuple of gen_args / build for one load"""
+    return ('track', 5, 61, 4, 1, ld['mode'], ld['start'], ld['rates'][0], ld['rates'][1],
+            [(t, a, e) for t, (a, e) in zip(ld['times'], ld['pos'])])
+
+
+def ps_observe(ps):
+    table = list(zip(ps.relative_times, [L.bits_of(x) for x in ps.azimuth_positions],
+                     [L.bits_of(x) for x in ps.elevation_positions]))
+    rates = None
+    if hasattr(ps, 'azimuth_max_rate'):
+        rates = (L.bits_of(ps.azimuth_max_rate), L.bits_of(ps.elevation_max_rate))
+    return dict(ans=ps.parameter_command_answer, cnt=ps.parameter_command_counter, cmd=ps.parameter_command,
+                len=ps.ptTableLength, start=token(ps.start_time), table=table, rates=rates)
+
+
+def run_track_scenario(AU, A, loads, counter0):
+    """feed each load, built by the real encoders, to one fresh real System with the pointing
+    handler executed; returns per load (args, handler bytes, observation, outs, events)"""
+    s = L.new_system(A)
+    out = []
+    counter = counter0
+    saved = L.SyncThread.skip_ps
+    L.SyncThread.skip_ps = False
+    try:
+        for ld in loads:
+            args = load_args(ld)
+            msg = build(AU, counter, [args])
+            if msg is None:
+                out.append(dict(args=args, counter=counter, msg=None))
+                continue
+            outs = L.feed(s, msg)
+            ev = L.take_events()
+            out.append(dict(args=args, counter=counter, msg=msg, outs=outs, events=ev, idle=(s.msg == ''),
+                            obs=ps_observe(s.PS), start=start_token(s.PS, ld['start'])))
+            counter += 7
+    finally:
+        L.SyncThread.skip_ps = saved
+    return out
+
+
+def tk_term(rec):
+    """one load record -> Coq term of type AcmdTrackCorr.tkload"""
+    from vlib.core import optlit
+    o = rec['obs']
+    cmd = rec['events'][0][2]
+    ent = rec['args'][9]
+    uds = '[' + '; '.join('(%s, %s)' % (optlit(microdeg(L.float_of(a))), optlit(microdeg(L.float_of(e))))
+                          for _, a, e in ent) + ']'
+    tab = '[' + '; '.join('(%s, %s, %s)' % (zlit(t), zlit(a), zlit(e)) for t, a, e in o['table']) + ']'
+    room = 0 if rec['start'] is None else token(_dt.datetime.max) - rec['start']
+    rates = 'None' if o['rates'] is None else '(Some (%s, %s))' % (zlit(o['rates'][0]), zlit(o['rates'][1]))
+    return 'TkLoad %s (%s) %s %s %s %s %s %s %s %s %s %s %s' % (
+        zlit(rec['counter'] + 1), coq_ecmd(rec['args']), zlist(cmd), optlit(rec['start']), zlit(room), uds,
+        zlit(o['ans']), zlit(o['cnt']), zlit(o['cmd']), zlit(o['len']), optlit(o['start']), tab, rates)
+
+
+def track_scenarios(ctx, n_random):
+    rng = ctx.rng
+    sc = []
+    for n in MUST_N:
+        if n >= 5:
+            sc.append(track_scenario(rng, ('new', n)))
+        sc.append(track_scenario(rng, ('append', n)))
+    sc.append(too_long_scenario(rng))
+    for _ in range(n_random):
+        sc.append(track_scenario(rng) if rng.random() < 0.9 else too_long_scenario(rng))
+    return sc
+
+
+def check_track(AU, A, loads, counter0):
+    """C10 for encoder-built program-track commands, on the real PointingStatus"""
+    recs = run_track_scenario(AU, A, loads, counter0)
+    table = []
+    accepted = None
+    for k, (ld, r) in enumerate(zip(loads, recs)):
+        n = len(ld['times'])
+        if r['msg'] is None:
+            if n <= 50:
+                return 'acu_track_encoder_raised_in_domain', 'the encoder raised for %d points' % n
+            continue
+        if any(o != L.O_TRUE for o in r['outs']) or not r['idle']:
+            return 'acu_track_frame_not_consumed', 'load %d (%d points): not every byte True / parser busy' % (k, n)
+        ev = r['events']
+        if len(ev) != 1 or ev[0][:2] != (5, 4) or ev[0][3] != L.T_DONE:
+            return 'acu_track_not_dispatched', 'load %d (%d points): handler events %r' % (
+                k, n, [(e[0], e[1], e[3], e[4]) for e in ev])
+        o = r['obs']
+        if (o['cnt'], o['cmd']) != (r['counter'] + 1, 61):
+            return 'acu_track_counter_not_decoded', 'load %d: counter/parameter id decoded as %r' % (k, (o['cnt'], o['cmd']))
+        if n > 50:
+            if o['ans'] != 5 or o['table'] != table:
+                return 'acu_track_too_long_accepted', 'a %d-point load was not refused (answer %d)' % (n, o['ans'])
+            continue
+        if o['ans'] != 1:
+            return 'acu_track_in_domain_refused', \
+                'in-domain %s of %d points (table had %d) answered %d instead of 1' % (
+                    'new table' if ld['mode'] == 1 else 'append', n, len(table), o['ans'])
+        new = [(t, a, e) for t, (a, e) in zip(ld['times'], ld['pos'])]
+        table = new if ld['mode'] == 1 else table + new
+        if o['table'] != table:
+            bad = next((i for i, (x, y) in enumerate(zip(o['table'], table)) if x != y), min(len(table), len(o['table'])))
+            return 'acu_track_values_differ', 'load %d: stored table differs from the encoder arguments at row %d ' \
+                '(%d rows stored, %d expected)' % (k, bad, len(o['table']), len(table))
+        if o['len'] != len(table):
+            return 'acu_track_length_field', 'ptTableLength %d, table has %d rows' % (o['len'], len(table))
+        if o['rates'] != ld['rates']:
+            return 'acu_track_values_differ', 'load %d: stored maximum rates differ from the encoder arguments' % k
+        if o['start'] is None or o['start'] != r['start']:
+            return 'acu_track_values_differ', 'load %d: stored start time is not mjd_to_date(argument)' % k
+    return None
+
+
+def scenario_json(loads):
+    return [dict(mode=l['mode'], times=l['times'], pos=[list(p) for p in l['pos']], start=l['start'],
+                 rates=list(l['rates'])) for l in loads]
+
+
+def scenario_from_json(js):
+    return [dict(mode=l['mode'], times=list(l['times']), pos=[tuple(p) for p in l['pos']], start=l['start'],
+                 rates=tuple(l['rates'])) for l in js]
+
+
 def correspondence(ctx):
     T = c14.tables(ctx)
     rng = ctx.rng
@@ -132,6 +347,20 @@ def correspondence(ctx):
                   ecases, shard=ctx.n(70, 200))
     ctx.run_cases('c10_acu_parse', 'From DS Require Import Corr.AcmdCorr.', 'acase', 'ok', pcases,
                   show='show', shard=ctx.n(40, 120))
+    # program-track commands decoded by the real PointingStatus
+    tcases = []
+    with patched_utils() as AU, L.patched() as A:
+        for loads in track_scenarios(ctx, ctx.n(40, 600)):
+            recs = run_track_scenario(AU, A, loads, rng.randrange(1, 2 ** 31))
+            if any(r['msg'] is None or len(r['events']) != 1 for r in recs):
+                ctx.count('c10_acu:track-not-dispatched')
+                continue        # reported by the oracle with a concrete input
+            tcases.append('[' + ';\n '.join(tk_term(r) for r in recs) + ']')
+            for ld, r in zip(loads, recs):
+                ctx.count('c10_acu:track-%s-answer-%d' % ('new' if ld['mode'] == 1 else 'append', r['obs']['ans']))
+                ctx.nontriv(('c10_acu_track', ld['mode'], len(ld['times']), ld['start'], r['obs']['ans']))
+    ctx.run_cases('c10_acu_track', 'From DS Require Import Model.AcmdEncoder Corr.AcmdTrackCorr.', 'tkcase', 'tkok', tcases,
+                  shard=ctx.n(12, 40))
 
 
 def norm(bits):
@@ -207,13 +436,26 @@ def oracle(ctx):
             if bad and bad[0] not in seen:
                 seen.add(bad[0])
                 ctx.fail(bad[0], bad[1], dict(counter=counter, cmds=[list(c) for c in cmds], prev=prev))
-    ctx.oracle_stats['c10_acu'] = dict(encoder_calls=n)
-    ctx.evaluations += n
+        nt = 0
+        for loads in track_scenarios(ctx, ctx.n(120, 2000)):
+            c0 = rng.randrange(1, 2 ** 31)
+            bad = check_track(AU, A, loads, c0)
+            nt += len(loads)
+            if bad and bad[0] not in seen:
+                seen.add(bad[0])
+                ctx.fail(bad[0], bad[1], dict(kind='track', counter=c0, loads=scenario_json(loads)))
+    ctx.oracle_stats['c10_acu'] = dict(encoder_calls=n, track_loads=nt)
+    ctx.evaluations += n + nt
 
 
 def replay(ctx, obj):
     w = obj.get('witness') or {}
-    if not str(obj.get('klass', '')).startswith('acu_') or 'cmds' not in w:
+    if not str(obj.get('klass', '')).startswith('acu_'):
+        return False
+    if w.get('kind') == 'track':
+        with patched_utils() as AU, L.patched() as A:
+            return bool(check_track(AU, A, scenario_from_json(w['loads']), w['counter']))
+    if 'cmds' not in w:
         return False
     T = c14.tables(ctx)
     cmds = [tuple(c[:9]) + ([tuple(e) for e in c[9]],) if c[0] == 'track' else tuple(c) for c in w['cmds']]
